@@ -30,7 +30,7 @@ const kvSpec = `{"openapi":"3.0.3","info":{"title":"kv","version":"1"},"paths":{
  "CasReq":{"type":"object","required":["key","old","new"],"properties":{"key":{"type":"string"},"old":{"type":"string"},"new":{"type":"string","pattern":"^(?=g)g[0-9]+-"}}},
  "Res":{"type":"object","required":["value","found","done"],"properties":{"value":{"type":"string"},"found":{"type":"boolean"},"done":{"type":"boolean"}}}}}}`
 
-var quickCorpus = []string{"positive/sample.json", "positive/parameters.json", "positive/http_requests.json"}
+var quickCorpus = []string{"positive/sample.json", "positive/parameters.json", "positive/http_requests.json", "positive/form.json"}
 
 func Main(args []string) int {
 	r := ev.New("C19", "exploration")
@@ -75,6 +75,18 @@ func Main(args []string) int {
 		jobs = append(jobs, j)
 		pk = append(pk, servlab.C19Pkg{Key: key, Origin: it.ID, Calls: r.N(300, 800), Goroutines: r.N(32, 64), Rounds: r.N(2, 6)})
 	}
+	// one more package of the first document with per-request client options generated in (option flavour of
+	// the per-call server URL override; the other packages have the context flavour)
+	if len(files) > 0 {
+		it := genlab.CorpusItem(files[0])
+		it.DefaultFeat = false
+		it.Features = []string{"paths/client", "paths/server", "client/request/validation", "server/response/validation", "ogen/otel", "client/request/options"}
+		it.Convenient = "off"
+		if j, err := e3.JobFromItem("p9000", it); err == nil {
+			jobs = append(jobs, j)
+			pk = append(pk, servlab.C19Pkg{Key: "p9000", Origin: it.ID + "#request-options", Calls: r.N(300, 800), Goroutines: r.N(32, 64), Rounds: r.N(2, 6)})
+		}
+	}
 	batch := 8
 	scratchLogs := filepath.Join(mod.Dir, "race")
 	for b := 0; b*batch < len(jobs); b++ {
@@ -113,8 +125,9 @@ func Main(args []string) int {
 			}
 			// exit status 66 = the race detector reported something (read from the logs below)
 			if res.Exit != 0 && res.Exit != 66 {
-				if strings.Contains(res.Output, "fatal error") {
-					r.Violate("concurrent/process-died", "driver died under concurrent use: "+first(res.Output), map[string]any{"output": tail(res.Output, 4000)})
+				if res.Fatal != "" {
+					// e.g. "fatal error: concurrent map writes": not recoverable, the whole driver dies
+					r.Violate("concurrent/process-died:"+first(res.Fatal), "driver died under concurrent use: "+first(res.Fatal), map[string]any{"fatal": res.Fatal, "frames_in_ogen_or_generated_code": genlab.OgenFrames(res.Fatal, 12)})
 					continue
 				}
 				fmt.Printf("ERROR driver exited with %d:\n%s\n", res.Exit, res.Output)
@@ -138,7 +151,7 @@ func Main(args []string) int {
 		}
 		r.Violate("data-race:"+key, "race detector report under concurrent use of generated client/server: "+key, map[string]any{"frames": key, "report": blk})
 	}
-	r.Assume("interleavings are those reached with 16-64 goroutines, GOMAXPROCS in {2,16}, PRNG-determined Gosched/sleep in the handler between request decoding and response encoding, an in-process wire transport and a real loopback connection pool, servers with and without a chain of yielding pass-through middlewares, OpenTelemetry instrumentation generated in (no-op providers); the evidence reports the maximum number of handler invocations in flight")
+	r.Assume("interleavings are those reached with 16-64 goroutines, GOMAXPROCS in {2,16}, PRNG-determined Gosched/sleep in the handler between request decoding and response encoding, an in-process wire transport and a real loopback connection pool, servers with and without a chain of yielding pass-through middlewares, multipart and stream operations included (readers rewound before each execution; one read-only part header map shared by all uploads), a third of the calls made with the per-call server URL override (one *url.URL shared by all goroutines; context and request-option flavour), OpenTelemetry instrumentation generated in (no-op providers); the evidence reports the maximum number of handler invocations in flight")
 	r.Assume("isolation oracle: the handler's answer is a deterministic function of the request it received (unique ids embedded in every string leaf), so each call's outcome under concurrency must equal its outcome in the preceding sequential run of the same list; key/value histories with unique written values are checked by porcupine per key against a register model (timeout = inconclusive)")
 	return r.Finish("driver built with -race from freshly generated packages (key/value spec with RE2 and look-ahead patterns, ogen's sample/parameters/requests specs with request and response validation on): a fixed list of calls (valid, hostile, validation-failing; all operations) run sequentially, then concurrently in PRNG order by many goroutines, outcomes compared call by call; key/value histories checked for linearizability. distinct = (package, transport, round, call) plus recorded key/value operations", 2000, false)
 }
